@@ -1,7 +1,8 @@
 ------------------------------- MODULE MC_Trunc -------------------------------
 (***************************************************************************)
 (* C18.  TLC enumerates every grid profile on a game with three infosets   *)
-(* (player one: 2 and 3 actions, player two: 2 actions) and every          *)
+(* (player one: 2 and 3 actions, player two: 2 actions; optionally a wide  *)
+(* fourth infoset with up to ten actions) and every                        *)
 (* threshold at, between, below and above the probabilities plus the       *)
 (* special values; it checks the theorems about the specified Truncate on  *)
 (* each, and prints the case with the specified result for replay into     *)
@@ -34,24 +35,28 @@ Thresholds(s) ==
        \cup {Q(RMul(Half, RAdd(p, q))) : p \in P, q \in P}
        \cup {Q(RMul(Half, p)) : p \in P}
 
-VARIABLES wa, wb, wc, h, done
-vars == <<wa, wb, wc, h, done>>
+VARIABLES wa, wb, wc, wd, h, done
+vars == <<wa, wb, wc, wd, h, done>>
 
-S == <<Normalise(wa), Normalise(wb), Normalise(wc)>>
+\* wd: an optional second infoset of player two with many actions; probabilities such as 1/10 or 1/7 are
+\* not exact in binary floating point, so the stored infoset sums to one only up to rounding
+Wide == {[j \in 1..10 |-> 1], [j \in 1..7 |-> 1], <<1, 2, 4>>, <<3, 3, 1>>, [j \in 1..6 |-> IF j = 1 THEN 5 ELSE 1]}
+S == IF wd = <<>> THEN <<Normalise(wa), Normalise(wb), Normalise(wc)>>
+     ELSE <<Normalise(wa), Normalise(wb), Normalise(wc), Normalise(wd)>>
 
-Init == /\ wa \in Reduced(2)
-        /\ wb \in Reduced(3)
-        /\ wc \in {<<1, 1>>, <<1, 0>>, <<1, 3>>}
-        /\ h \in Thresholds(<<Normalise(wa), Normalise(wb), Normalise(wc)>>)
+Init == /\ wd \in {<<>>} \cup Wide
+        /\ IF wd = <<>> THEN wa \in Reduced(2) /\ wb \in Reduced(3) /\ wc \in {<<1, 1>>, <<1, 0>>, <<1, 3>>}
+                         ELSE wa = <<1, 1>> /\ wb \in {<<1, 1, 1>>, <<0, 1, 2>>} /\ wc = <<1, 3>>
+        /\ h \in Thresholds(S)
         /\ done = FALSE
 
-Expected == [i \in 1..3 |-> IF SomeExceeds(S[i], h) THEN [fixed |-> TRUE, v |-> TruncKeep(S[i], h)]
+Expected == [i \in 1..Len(S) |-> IF SomeExceeds(S[i], h) THEN [fixed |-> TRUE, v |-> TruncKeep(S[i], h)]
                                                    ELSE [fixed |-> FALSE, v |-> <<>>]]
 
 Next == /\ ~done
         /\ done' = TRUE
-        /\ UNCHANGED <<wa, wb, wc, h>>
-        /\ PrintT(<<"OUT", 0, ToJson([w |-> <<<<wa, wb>>, <<wc>>>>, h |-> h, exp |-> Expected])>>)
+        /\ UNCHANGED <<wa, wb, wc, wd, h>>
+        /\ PrintT(<<"OUT", 0, ToJson([w |-> <<<<wa, wb>>, IF wd = <<>> THEN <<wc>> ELSE <<wc, wd>>>>, h |-> h, exp |-> Expected])>>)
 
 Spec == Init /\ [][Next]_vars
 
